@@ -11,6 +11,7 @@ import (
 	"fmt"
 	"go/token"
 	"go/types"
+	"sort"
 	"strings"
 
 	"golang.org/x/tools/go/ssa"
@@ -51,11 +52,11 @@ func runC18(c *Ctx) {
 			fields[st.Field(i).Name()] = st.Field(i).Type()
 		}
 	}
-	cfgFns := c.P.FuncsOfPkg(c18CfgPkg)
+	cfgFns := c11FuncsOfPkg(c.P, c18CfgPkg)
 	if st == nil || !c18ResolveFields(c, R1, st, cfgFns) {
 		return
 	}
-	ioFns := c.P.FuncsOfPkg(c18IOPkg)
+	ioFns := c11FuncsOfPkg(c.P, c18IOPkg)
 	all := append(append([]*ssa.Function{}, cfgFns...), ioFns...)
 	c18R1(c, all)
 	c18R2(c)
@@ -623,6 +624,44 @@ func c18R1(c *Ctx, fns []*ssa.Function) {
 				}
 			}
 		}
+		// closeFile := sync.OnceValue(tempFile.Close) (or the plain method value): a call of that function value is a Close
+		for _, call := range Calls(I, func(string) bool { return true }) {
+			cc := call.Common()
+			if cc.IsInvoke() || StaticCallee(call) != nil || len(cc.Args) != 0 {
+				continue
+			}
+			if _, isDefer := call.(*ssa.Defer); isDefer {
+				continue
+			}
+			isClose := false
+			for _, r := range Roots(cc.Value) {
+				v := r
+				if oc, ok := r.(*ssa.Call); ok && (CalleeName(oc) == "sync.OnceValue" || CalleeName(oc) == "sync.OnceValues") && len(oc.Call.Args) == 1 {
+					rs := Roots(oc.Call.Args[0])
+					if len(rs) != 1 {
+						continue
+					}
+					v = rs[0]
+				}
+				if bm, ok := v.(*ssa.MakeClosure); ok && len(bm.Bindings) == 1 {
+					g := bm.Fn.(*ssa.Function)
+					if strings.HasPrefix(g.Synthetic, "bound method") && strings.HasPrefix(fnFullName(g), "(*os.File).Close") && c18FileFrom(bm.Bindings[0], creates) {
+						isClose = true
+					}
+				}
+			}
+			if !isClose {
+				continue
+			}
+			r := ErrFlow(call, ErrFlowOpts{})
+			atoms := c11SuccessAtoms(I)
+			in := call.(ssa.Instruction)
+			ok := r.OK && c11AllAtomsPass(atoms, func() *cut { return newCut().Instr(in) })
+			if ok {
+				captured[I] = true
+			}
+			c.Check(R1, FnName(I)+"|close-error-captured-via:function-value", call.Pos(), ok, ifelse(ok, "the temp file is closed through a function value of its Close method; the error surfaces and every successful return lies behind it", "the Close error obtained through the function value does not surface on every path: "+r.Detail))
+		}
 		if !captured[I] {
 			c.Violation(R1, FnName(I)+"|close-error-captured", I.Pos(), "the temp file is never closed with its error captured on the success path: a delayed write error reported by Close is lost and the incomplete file is renamed over the config")
 		}
@@ -691,8 +730,8 @@ func c18R1(c *Ctx, fns []*ssa.Function) {
 				if v := call.Value(); v != nil && ErrNilStatus(v, 0) == NonNil {
 					continue
 				}
-				if nm == "(*os.File).Close" || nm == "(io.Closer).Close" {
-					continue // judged by the Close rules (captured on the success path, droppable on failing paths)
+				if nm == "(*os.File).Close" || nm == "(io.Closer).Close" || nm == "os.Remove" {
+					continue // Close is judged by the Close rules; Remove is best-effort clean-up (judged by the Remove rule)
 				}
 				r := ErrFlow(call, ErrFlowOpts{})
 				c.Check(R1, in+"|error-surfaces:"+nm, call.Pos(), r.OK, ifelse(r.OK, r.How, "an error while preparing the temp file is swallowed, the incomplete file is then renamed over the config: "+r.Detail))
@@ -1179,14 +1218,77 @@ func c18R2(c *Ctx) {
 	const R2 = "C18.R2.guarded-by"
 	c.Expect(R2, 10)
 	m := "(*" + c18Cfg + ")."
+	exempt := map[string]string{
+		"~/registry/remote/credentials/internal/config.Load": "the Config is under construction and not yet shared",
+		m + "IsAuthConfigured":                               "advisory query, not among Get/Put/Delete; documented exception (DESIGN C18.R2)",
+	}
+	// a mutation written as a function literal and handed to a helper that locks, runs it and saves: the literal runs
+	// with the write lock held (the lockset engine treats literals as functions of their own)
+	fns := c11FuncsOfPkg(c.P, c18CfgPkg)
+	for _, f := range fns {
+		AllInstrs(f, func(in ssa.Instruction) {
+			mc, ok := in.(*ssa.MakeClosure)
+			if !ok || mc.Referrers() == nil {
+				return
+			}
+			lit := mc.Fn.(*ssa.Function)
+			for _, ref := range *mc.Referrers() {
+				call, isCall := ref.(*ssa.Call)
+				if !isCall {
+					if _, dbg := ref.(*ssa.DebugRef); !dbg {
+						return // the literal flows elsewhere too
+					}
+					continue
+				}
+				H := StaticCallee(call)
+				if H == nil || len(H.Blocks) == 0 || H.Parent() != nil {
+					return
+				}
+				idx := -1
+				for i, a := range call.Call.Args {
+					if a == ssa.Value(mc) {
+						idx = i
+					}
+				}
+				if idx < 0 || idx >= len(H.Params) {
+					return
+				}
+				held := heldAt(H, heldSet{})
+				n, all := 0, true
+				for _, hc := range Calls(H, func(string) bool { return true }) {
+					if hc.Common().Value != ssa.Value(H.Params[idx]) {
+						continue
+					}
+					n++
+					okW := false
+					for path, mode := range held[hc.(ssa.Instruction)] {
+						if strings.HasSuffix(path, "."+c18FLock) && mode >= modeW {
+							okW = true
+						}
+					}
+					if _, isDefer := hc.(*ssa.Defer); isDefer || !okW {
+						all = false
+					}
+				}
+				// the parameter is only called, never stored or passed on
+				for _, pr := range *H.Params[idx].Referrers() {
+					switch pr.(type) {
+					case ssa.CallInstruction, *ssa.DebugRef:
+					default:
+						all = false
+					}
+				}
+				if n > 0 && all {
+					exempt[FnName(lit)] = "runs only inside " + FnName(H) + ", which invokes it with " + c18FLock + " held for writing"
+				}
+			}
+		})
+	}
 	LockCheck(c, R2, []GuardSpec{{
 		Type:   c18Cfg,
 		Fields: []string{c18FContent, c18FAuths, c18FCreds},
 		Lock:   c18FLock,
-		Exempt: map[string]string{
-			"~/registry/remote/credentials/internal/config.Load": "the Config is under construction and not yet shared",
-			m + "IsAuthConfigured":                               "advisory query, not among Get/Put/Delete; documented exception (DESIGN C18.R2)",
-		},
+		Exempt: exempt,
 	}}, []string{c18CfgPkg})
 	c18ReplaceUnderWriteLock(c, R2)
 }
@@ -1198,7 +1300,7 @@ func c18R2(c *Ctx) {
 // in which their files replace each other.  Releasing the lock between the
 // update and the save lets an older document be renamed over a newer one.
 func c18ReplaceUnderWriteLock(c *Ctx, R2 string) {
-	fns := c.P.FuncsOfPkg(c18CfgPkg)
+	fns := c11FuncsOfPkg(c.P, c18CfgPkg)
 	callers := map[*ssa.Function][]ssa.CallInstruction{}
 	for _, f := range fns {
 		for _, call := range Calls(f, func(string) bool { return true }) {
@@ -1313,8 +1415,29 @@ func c18R3(c *Ctx, fns []*ssa.Function, fields map[string]types.Type) {
 			}
 			rs := Roots(k)
 			for _, r := range rs {
-				p, ok := r.(*ssa.Parameter)
-				if !ok || p.Parent() != fn {
+				if p, ok := r.(*ssa.Parameter); ok && p.Parent() == fn {
+					continue
+				}
+				// the enclosing method's parameter, captured by a closure that performs the mutation
+				captured := false
+				if ld, ok := r.(*ssa.UnOp); ok && ld.Op == token.MUL {
+					if fv, ok := ld.X.(*ssa.FreeVar); ok {
+						captured = true
+						for _, b := range freeVarBindings(fv) {
+							a, isAlloc := b.(*ssa.Alloc)
+							if !isAlloc {
+								captured = false
+								continue
+							}
+							for _, st := range storesTo(a) {
+								if _, isParam := st.Val.(*ssa.Parameter); !isParam {
+									captured = false
+								}
+							}
+						}
+					}
+				}
+				if !captured {
 					return false, describe(k)
 				}
 			}
@@ -1334,7 +1457,7 @@ func c18R3(c *Ctx, fns []*ssa.Function, fields map[string]types.Type) {
 			case *ssa.Store:
 				if fa, ok := u.Addr.(*ssa.FieldAddr); ok {
 					fname := fieldName(fa.X.Type(), fa.Field)
-					if (fname == c18Cfg+"."+c18FContent || fname == c18Cfg+"."+c18FAuths) && !pathIsFresh(accessPath(fa.X)) {
+					if (fname == c18Cfg+"."+c18FContent || fname == c18Cfg+"."+c18FAuths) && !c18FreshBase(fa.X, fns, 0) {
 						c.Violation(R3, tn+"|replace:"+ifelse(fname == c18Cfg+"."+c18FContent, "content", "authsCache"), u.Pos(), "the whole map is replaced on a shared Config: every entry not rebuilt here is lost at the next save")
 					}
 				}
@@ -1395,7 +1518,7 @@ func c18R3(c *Ctx, fns []*ssa.Function, fields map[string]types.Type) {
 			if fname != c18Cfg+"."+c18FContent && fname != c18Cfg+"."+c18FAuths {
 				return
 			}
-			if pathIsFresh(accessPath(fa.X)) {
+			if c18FreshBase(fa.X, fns, 0) {
 				return
 			}
 			for _, ref := range *fa.Referrers() {
@@ -1479,6 +1602,46 @@ func c18R3(c *Ctx, fns []*ssa.Function, fields map[string]types.Type) {
 	if !found {
 		c.LostAnchor(R3, "call of the ingest function from credentials/internal/config")
 	}
+}
+
+// c18FreshBase: the Config is still under construction: a local new(Config), or
+// the parameter of an unexported helper that every caller hands such an object
+// (Load split into helper methods).
+func c18FreshBase(v ssa.Value, fns []*ssa.Function, depth int) bool {
+	if pathIsFresh(accessPath(v)) {
+		return true
+	}
+	if depth > 2 {
+		return false
+	}
+	rs := Roots(v)
+	if len(rs) != 1 {
+		return false
+	}
+	prm, ok := rs[0].(*ssa.Parameter)
+	if !ok || prm.Parent().Parent() != nil || (prm.Parent().Object() != nil && prm.Parent().Object().Exported()) {
+		return false
+	}
+	K := prm.Parent()
+	idx := -1
+	for i, q := range K.Params {
+		if q == prm {
+			idx = i
+		}
+	}
+	n := 0
+	for _, f := range fns {
+		for _, call := range Calls(f, func(string) bool { return true }) {
+			if StaticCallee(call) != K || idx < 0 || idx >= len(call.Common().Args) {
+				continue
+			}
+			n++
+			if !c18FreshBase(call.Common().Args[idx], fns, depth+1) {
+				return false
+			}
+		}
+	}
+	return n > 0
 }
 
 // c18ResolveMarshal follows v (used at instruction use, in use's function) back
@@ -1577,60 +1740,85 @@ func c18R4(c *Ctx) {
 	const R4 = "C18.R4.format-guard"
 	c.Expect(R4, 5)
 	c18Forwarding(c, R4)
-	put := c.P.Fn("registry/remote/credentials", "FileStore.Put")
-	if put == nil {
+	if c.P.Fn("registry/remote/credentials", "FileStore.Put") == nil {
 		c.LostAnchor(R4, "(*~/registry/remote/credentials.FileStore).Put")
 		return
 	}
-	pn := FnName(put)
-	puts := CallsTo(put, "(*"+c18Cfg+").PutCredential")
-	if len(puts) == 0 {
-		c.LostAnchor(R4, pn+": call of Config.PutCredential")
+	// who may call Config.PutCredential: every caller in the module outside the config package, whatever
+	// store type it belongs to, refuses when plaintext puts are disabled and validates the credential first
+	var callers []*ssa.Function
+	for f := range c.P.All {
+		if !inModule(f) || len(f.Blocks) == 0 || fnPkgPath(f) == pkgPath(c18CfgPkg) {
+			continue
+		}
+		if len(CallsTo(f, "(*"+c18Cfg+").PutCredential")) > 0 {
+			callers = append(callers, f)
+		}
+	}
+	sort.Slice(callers, func(i, j int) bool { return FnName(callers[i]) < FnName(callers[j]) })
+	if len(callers) == 0 {
+		c.LostAnchor(R4, "a call of Config.PutCredential outside the config package")
 		return
 	}
-	disT, disF := BoolTests(put, c11FieldReads(put, "~/registry/remote/credentials.FileStore.DisablePut"))
-	_ = disT
-	// the validator: a callee taking the credential whose body looks for ':' in Username
-	var valNil []Edge
-	for _, call := range Calls(put, func(string) bool { return true }) {
-		g := StaticCallee(call)
-		if g == nil || !inModule(g) || ErrResultIndex(g.Signature) < 0 {
-			continue
-		}
-		looks := false
-		for _, t := range Calls(g, func(n string) bool {
-			return n == "strings.ContainsRune" || n == "strings.Contains" || n == "strings.IndexByte" || n == "strings.IndexRune" || n == "strings.ContainsAny" || n == "strings.Index"
-		}) {
-			a := t.Common().Args
-			colon := false
-			if k, ok := constInt(a[1]); ok && k == ':' {
-				colon = true
+	for _, put := range callers {
+		pn := FnName(put)
+		puts := CallsTo(put, "(*"+c18Cfg+").PutCredential")
+		// refusal: the !DisablePut edge of a FileStore, or the AllowPlaintextPut edge of the store options
+		_, disF := BoolTests(put, c11FieldReads(put, "~/registry/remote/credentials.FileStore.DisablePut"))
+		allowT, _ := BoolTests(put, c11FieldReads(put, "~/registry/remote/credentials.StoreOptions.AllowPlaintextPut"))
+		allowed := append(append([]Edge{}, disF...), allowT...)
+		for i, p := range puts {
+			sfx := ""
+			if i > 0 {
+				sfx = fmt.Sprintf("#%d", i+1)
 			}
-			if s, ok := constString(a[1]); ok && s == ":" {
-				colon = true
+			// the validator: a callee handed the very credential that is put, whose body looks for ':' in Username
+			credArg := p.Common().Args[len(p.Common().Args)-1]
+			var valNil []Edge
+			for _, call := range Calls(put, func(string) bool { return true }) {
+				g := StaticCallee(call)
+				if g == nil || !inModule(g) || ErrResultIndex(g.Signature) < 0 {
+					continue
+				}
+				looks := false
+				for _, t := range Calls(g, func(n string) bool {
+					return n == "strings.ContainsRune" || n == "strings.Contains" || n == "strings.IndexByte" || n == "strings.IndexRune" || n == "strings.ContainsAny" || n == "strings.Index"
+				}) {
+					a := t.Common().Args
+					colon := false
+					if k, ok := constInt(a[1]); ok && k == ':' {
+						colon = true
+					}
+					if s, ok := constString(a[1]); ok && s == ":" {
+						colon = true
+					}
+					if colon && isFieldLoad(a[0], "Username") {
+						looks = true
+					}
+				}
+				if !looks {
+					continue
+				}
+				same := false
+				for _, a := range call.Common().Args {
+					if c11SameLoc(a, credArg) {
+						same = true
+					}
+				}
+				if !same {
+					continue
+				}
+				if e := ErrOf(call); e != nil {
+					ne, _, _ := NilTests(put, Aliases(e))
+					valNil = append(valNil, ne...)
+				}
 			}
-			if colon && isFieldLoad(a[0], "Username") {
-				looks = true
-			}
+			ok := len(allowed) > 0 && MustPass(p.(ssa.Instruction), newCut().Edges(allowed...))
+			c.Check(R4, pn+"|DisablePut-checked"+sfx, p.Pos(), ok, ifelse(ok, "PutCredential is reached only on the plaintext-put-allowed edge (!DisablePut / AllowPlaintextPut)", "PutCredential is reachable although plaintext puts are disabled: plaintext credentials are written against the caller's wish"))
+			ok = len(valNil) > 0 && MustPass(p.(ssa.Instruction), newCut().Edges(valNil...))
+			c.Check(R4, pn+"|colon-rule-checked"+sfx, p.Pos(), ok, ifelse(ok, "PutCredential is reached only behind the successful username-colon validation of the credential it stores",
+				"PutCredential is reachable without the username-colon validation of the credential it stores: base64(user:pass) is then split at the wrong colon and Get returns a different credential"))
 		}
-		if !looks {
-			continue
-		}
-		if e := ErrOf(call); e != nil {
-			ne, _, _ := NilTests(put, Aliases(e))
-			valNil = append(valNil, ne...)
-		}
-	}
-	for i, p := range puts {
-		sfx := ""
-		if i > 0 {
-			sfx = fmt.Sprintf("#%d", i+1)
-		}
-		ok := len(disF) > 0 && MustPass(p.(ssa.Instruction), newCut().Edges(disF...))
-		c.Check(R4, pn+"|DisablePut-checked"+sfx, p.Pos(), ok, ifelse(ok, "PutCredential is reached only on the !DisablePut edge", "PutCredential is reachable although DisablePut is set: plaintext credentials are written against the caller's wish"))
-		ok = len(valNil) > 0 && MustPass(p.(ssa.Instruction), newCut().Edges(valNil...))
-		c.Check(R4, pn+"|colon-rule-checked"+sfx, p.Pos(), ok, ifelse(ok, "PutCredential is reached only behind the successful username-colon validation",
-			"PutCredential is reachable without the username-colon validation: base64(user:pass) is then split at the wrong colon and Get returns a different credential"))
 	}
 }
 
@@ -1780,6 +1968,13 @@ var c18Mutants = []Mutant{
 	{Name: "delete-normalises-address", File: "registry/remote/credentials/file_store.go",
 		Old: "\treturn fs.config.DeleteCredential(serverAddress)", New: "\treturn fs.config.DeleteCredential(strings.ToLower(serverAddress))",
 		Expect: "C18.R4.format-guard|(*~/registry/remote/credentials.FileStore).Delete|forwards-to-DeleteCredential"},
+	{Name: "dynamic-store-puts-directly", File: "registry/remote/credentials/store.go",
+		Old:    "\tif err := ds.getStore(serverAddress).Put(ctx, serverAddress, cred); err != nil {\n\t\treturn err\n\t}\n",
+		New:    "\tif ds.getHelperSuffix(serverAddress) != \"\" || !ds.options.AllowPlaintextPut {\n\t\tif err := ds.getStore(serverAddress).Put(ctx, serverAddress, cred); err != nil {\n\t\t\treturn err\n\t\t}\n\t} else if err := ds.config.PutCredential(serverAddress, cred); err != nil {\n\t\treturn err\n\t}\n",
+		Expect: "C18.R4.format-guard|(*~/registry/remote/credentials.DynamicStore).Put|colon-rule-checked"},
+	{Name: "validator-applied-to-other-credential", File: "registry/remote/credentials/file_store.go",
+		Old: "\tif err := validateCredentialFormat(cred); err != nil {", New: "\tif err := validateCredentialFormat(auth.EmptyCredential); err != nil {",
+		Expect: "C18.R4.format-guard|(*~/registry/remote/credentials.FileStore).Put|colon-rule-checked"},
 	{Name: "colon-check-dropped", File: "registry/remote/credentials/file_store.go",
 		Old:    "\tif err := validateCredentialFormat(cred); err != nil {\n\t\treturn err\n\t}\n",
 		New:    "\t_ = validateCredentialFormat\n",
